@@ -163,7 +163,7 @@ Inductive tr (x : bool) (s : state) : state -> Prop :=
     T s u tu -> is_finished (t_st tu) = true -> ctx_failed (t_ctx tu) s = false ->
     tr x s (set_st n (Waiting (S i)) s)
 | tr_waitfail n t i :
-    T s n t -> t_st t = Waiting i ->
+    T s n t -> t_st t = Waiting i -> i < length (t_waits t) ->
     tr x s (set_st n Closing (fail_ctx (t_ctx t) s))
 | tr_bodybegin n t i :
     T s n t -> t_st t = Waiting i -> nth_error (t_waits t) i = None ->
@@ -213,9 +213,9 @@ Proof.
     + destruct (find_task u (tasks s)) as [tu|] eqn:Eu.
       * destruct (is_finished (t_st tu)) eqn:Ef; [|discriminate].
         destruct (ctx_failed (t_ctx tu) s) eqn:Ec; intro H; inversion H; subst; apply tr2_one.
-        -- eapply tr_waitfail; eauto.
+        -- eapply tr_waitfail; eauto. apply nth_error_Some. congruence.
         -- eapply tr_pass; eauto.
-      * intro H; inversion H; subst. apply tr2_one. eapply tr_waitfail; eauto.
+      * intro H; inversion H; subst. apply tr2_one. eapply tr_waitfail; eauto. apply nth_error_Some. congruence.
     + intro H; inversion H; subst. apply tr2_one. eapply tr_bodybegin; eauto.
   - destruct ph as [| | c |].
     + destruct (nth_error (t_body t) pc) eqn:Enth; intro H; inversion H; subst; apply tr2_one.
